@@ -657,7 +657,9 @@ func TestVerifC09Atomic(t *testing.T) {
 		add(6, "/cfg/b.yml") // 2: served at start
 		add(5, "/cfg/c.yml") // 3: epoch 5 again, from another config file
 		add(7, "/cfg/d.yml") // 4
-		add(6, "/cfg/a.yml") // 5: epoch 6 from the path of object 1
+		add(6, "/cfg/e.yml") // 5: epoch 6 again, from another config file
+		// (no two objects share a config path: RemoveEpochByConfigFilepath ranges over a map, so with two served epochs
+		// loaded from one path even the sequential outcome would be nondeterministic - and a config file holds one epoch)
 		w.multi.AddEpoch(5, w.objs[0])
 		w.multi.AddEpoch(6, w.objs[1])
 		return w
